@@ -8,7 +8,7 @@ import z3
 
 from .types import (INT, BOOL, STR, ANY, NONE, OptT, TupT, SeqT, SetT, DictT, ObjT, sort_of, Ref)
 from .values import (Unsupported, SV, MNONE, MTup, MList, MFn, MCls, MNS, MU, MExc, const, fresh,
-                     pack, as_sv, truthy, type_of, FAMILY_EQ_STR, FAMILY_EQ, fresh_name)
+                     pack, as_sv, truthy, type_of, FAMILY_EQ_STR, FAMILY_EQ, FAMILY_TRUTHY, fresh_name)
 from .spec import FnSpec, Family, Contract
 from .engine import (Verifier, State, Outcome, NORMAL, RETURN, RAISE, BREAK, CONTINUE,
                      exc_is_subclass, EXC_BASES)
@@ -189,6 +189,15 @@ def install_axioms(V):
             FAMILY_EQ[fam.name] = mk2(fam)
         else:
             FAMILY_EQ.pop(fam.name, None)
+        if getattr(fam, 'truthy', None):
+            def mk3(fam):
+                def f(rz):
+                    st0 = State()
+                    return truthy(V.eval_spec(fam.truthy, st0, {'o': SV(ObjT(fam.name), rz)}))
+                return f
+            FAMILY_TRUTHY[fam.name] = mk3(fam)
+        else:
+            FAMILY_TRUTHY.pop(fam.name, None)
     used = set(V.c.families)
     for fname in used:
         fam = V.family(fname)
